@@ -336,8 +336,8 @@ static int do_mul(ctx_t *c, const long *a, int kind) {
   case MUL_NAIVE: R = L->mzd_mul_naive(C, A, B); break;
   case ADDMUL_NAIVE: R = L->mzd_addmul_naive(C, A, B); break;
   case MUL_VA: R = L->_mzd_mul_va(C, A, B, 1); break;
-  case MUL_M4RM: REQ(par >= 0 && par <= 8); R = L->mzd_mul_m4rm(C, A, B, (int)par); break;
-  case ADDMUL_M4RM: REQ(par >= 0 && par <= 8); R = L->mzd_addmul_m4rm(C, A, B, (int)par); break;
+  case MUL_M4RM: REQ(par >= 0 && par <= 16); /* any k is admissible here: the routine clamps it to 2..8 */ R = L->mzd_mul_m4rm(C, A, B, (int)par); break;
+  case ADDMUL_M4RM: REQ(par >= 0 && par <= 16); R = L->mzd_addmul_m4rm(C, A, B, (int)par); break;
   case MUL_STR: REQ(par >= 0 && strassen_guard_ok(A->nrows, A->ncols, B->ncols, par)); R = L->mzd_mul(C, A, B, (int)par); break;
   case ADDMUL_STR: REQ(par >= 0 && strassen_guard_ok(A->nrows, A->ncols, B->ncols, par)); R = L->mzd_addmul(C, A, B, (int)par); break;
   case MUL_MP: REQ(L->mzd_mul_mp && par >= 0 && strassen_guard_ok(A->nrows, A->ncols, B->ncols, par)); R = L->mzd_mul_mp(C, A, B, (int)par); break;
@@ -430,8 +430,8 @@ static int do_fact(ctx_t *c, const long *a, int kind) {
   case F_PLUQ: r = L->mzd_pluq(A, P, Q, (int)par); break;
   case F_PLE_NAIVE: r = L->_mzd_ple_naive(A, P, Q); break;
   case F_PLUQ_NAIVE: r = L->_mzd_pluq_naive(A, P, Q); break;
-  case F_PLE_RUS: REQ(par <= 8); r = L->_mzd_ple_russian(A, P, Q, (int)par); break;
-  case F_PLUQ_RUS: REQ(par <= 8); r = L->_mzd_pluq_russian(A, P, Q, (int)par); break;
+  case F_PLE_RUS: REQ(par <= 9); r = L->_mzd_ple_russian(A, P, Q, (int)par); break;
+  case F_PLUQ_RUS: REQ(par <= 9); r = L->_mzd_pluq_russian(A, P, Q, (int)par); break;
   }
   push_ret(c, r);
   return OP_OK;
